@@ -449,7 +449,8 @@ Fixpoint check_all (roots : list node) (ms : list (option (list term))) (es : li
   end.
 (* case: tree, allow_fallback, per formula (observed terms, value computed by the real steps),
    and what the harness believes about the premise and the F9 trigger *)
-Definition check (c : list node * bool * list Z * list Z * list (option (list oterm * Z)) * bool * bool) : bool :=
+Definition case_t : Type := (list node * bool * list Z * list Z * list (option (list oterm * Z)) * bool * bool)%type.
+Definition check (c : case_t) : bool :=
   let '(roots, fb, bsel, psel, exp, py_wf, py_trig) := c in
   check_all roots (formulas fb roots bsel psel) exp && Bool.eqb (wf roots) py_wf && Bool.eqb (f9_trigger roots) py_trig.
 """
@@ -459,8 +460,8 @@ def case_term(case, obs) -> str:
     roots = case["roots"]
     exp = "[" + "; ".join(c_formula(obs[n]) for n in FORMULAS) + "]"
     bsel, psel = sel_of(case)
-    return (f"({c_roots(roots)}, {cbool(case.get('fb', True))}, {clist(bsel)}, {clist(psel)}, {exp}, "
-            f"{cbool(wf_tree(roots))}, {cbool(f9_trigger(roots))})")
+    return (f"(({c_roots(roots)}, {cbool(case.get('fb', True))}, {clist(bsel)}, {clist(psel)}, {exp}, "
+            f"{cbool(wf_tree(roots))}, {cbool(f9_trigger(roots))}) : case_t)")
 
 
 # ----------------------------------------------------------------------------- generation
